@@ -435,6 +435,7 @@ const prelude = `
 (assert (forall ((a Str) (b Str) (i Int)) (! (= (sat (scat a b) i) (ite (< i (slen a)) (sat a i) (sat b (- i (slen a))))) :pattern ((select (sbytes (scat a b)) i)))))
 (assert (forall ((s Str) (i Int) (j Int)) (! (=> (and (<= 0 i) (<= i j) (<= j (slen s))) (= (slen (ssub s i j)) (- j i))) :pattern ((ssub s i j)))))
 (assert (forall ((s Str) (i Int) (j Int) (k Int)) (! (= (sat (ssub s i j) k) (sat s (+ i k))) :pattern ((select (sbytes (ssub s i j)) k)))))
+(assert (forall ((s Str) (j Int)) (! (=> (= j (slen s)) (= (ssub s 0 j) s)) :pattern ((ssub s 0 j)))))
 (assert (forall ((b Int)) (! (and (= (slen (sunit b)) 1) (= (sat (sunit b) 0) b)) :pattern ((sunit b)))))
 (assert (forall ((a Str) (b Str)) (! (= (seq a b) (= a b)) :pattern ((seq a b)))))
 (assert (forall ((a Str) (b Str)) (! (= (seq a b) (and (= (slen a) (slen b)) (forall ((k Int)) (! (=> (and (<= 0 k) (< k (slen a))) (= (sat a k) (sat b k))) :pattern ((select (sbytes a) k)) :pattern ((select (sbytes b) k)))))) :pattern ((seq a b)))))
